@@ -233,6 +233,42 @@ func checkHeader(h refHeader, variant int, tag string) {
 	r.Nontrivial("hdr|" + tag + "|" + mon.FullHex(want))
 }
 
+// stubFeatures is a caller-supplied implementation of the SecurityFeatures interface.
+type stubFeatures struct {
+	out []byte
+	err error
+}
+
+func (s *stubFeatures) Marshal() ([]byte, error) { return s.out, s.err }
+func (s *stubFeatures) Unmarshal(b []byte) (int, error) {
+	s.out = append([]byte{}, b...)
+	return len(b), nil
+}
+
+// customFeatures: the eight security-features octets come from whatever implementation the header
+// carries; they go out as given, and an implementation that cannot encode itself makes the header
+// unencodable (an error), never a header with other octets in their place.
+func customFeatures() {
+	for i, sec := range [][8]byte{{1, 2, 3, 4, 5, 6, 7, 8}, {0xFF, 0xFF, 0xFF, 0xFF, 0xFF, 0xFF, 0xFF, 0xFF}, {}, {0, 0, 0, 0, 0, 0, 0, 1}} {
+		h := refHeader{Command: 0x72, Flags: 0x18, Flags2: 0xC807, TID: 1, UID: 2, MID: uint16(3 + i), Sec: sec}
+		lh := libHeader(h, 0)
+		lh.SecurityFeatures = &stubFeatures{out: append([]byte{}, sec[:]...)}
+		got, err := lh.Marshal()
+		r.Eval(1)
+		cs := map[string]any{"fields": fmt.Sprintf("%+v", h), "security_features": "caller-supplied implementation"}
+		if err != nil || !bytes.Equal(got, h.encode()) {
+			r.Violation("header.Marshal:custom-security-features:layout", fmt.Sprintf("with a caller-supplied SecurityFeatures returning % x the header is %x (err %v), want %x", sec, got, err, h.encode()), cs)
+		}
+		lh.SecurityFeatures = &stubFeatures{err: fmt.Errorf("cannot sign")}
+		got, err = lh.Marshal()
+		r.Eval(1)
+		if err == nil {
+			r.Violation("header.Marshal:custom-security-features:error-swallowed", fmt.Sprintf("the SecurityFeatures implementation failed to encode itself, Header.Marshal returned a header all the same: %x", got), cs)
+		}
+		r.Nontrivial(fmt.Sprintf("customsec|%d", i))
+	}
+}
+
 func firstDiff(a, b refHeader) string {
 	va, vb := reflect.ValueOf(a), reflect.ValueOf(b)
 	for i := 0; i < va.NumField(); i++ {
@@ -510,6 +546,22 @@ func framing(structs []smbgen.Struct) {
 			if len(wire) != 32+1+2*wc+2+bc {
 				r.Violation(s.Name+":framing:equation", fmt.Sprintf("len=%d but 32+1+2*%d+2+%d=%d", len(wire), wc, bc, 35+2*wc+bc), cs)
 			}
+			// the header's command code is a header field like the others: when the caller sets it
+			// after attaching the command (0x00 is a code, not "unset"), it goes out as set
+			if it%3 == 0 {
+				for _, code := range []uint8{0x00, 0xFF, s.Code ^ 0x01} {
+					keep := m.Header.Command
+					m.Header.Command = codes.CommandCode(code)
+					var w3 []byte
+					var e3 error
+					mon.Guard(func() { w3, e3 = m.Marshal() })
+					m.Header.Command = keep
+					r.Eval(1)
+					if e3 == nil && len(w3) > 4 && w3[4] != code {
+						r.Violation("message.Marshal:header-command-overridden", fmt.Sprintf("Header.Command set to %#02x with a %s attached: the header goes out with command %#02x", code, s.Name, w3[4]), cs)
+					}
+				}
+			}
 			// repeatability
 			for k := 2; k <= 5; k++ {
 				var again []byte
@@ -713,6 +765,7 @@ func main() {
 	structs, reqT, respT := smbgen.Enumerate()
 	headers()
 	dispatch(reqT, respT)
+	customFeatures()
 	framing(structs)
 	chained(structs)
 	blockSequences()
